@@ -105,6 +105,7 @@ class Loader:
             "zmq": StubModule("zmq", {"error": StubModule("zmq.error", {"Again": ExcClass("Again")})}),
             "signal": StubModule("signal", {}),
             "fractions": StubModule("fractions", {"Fraction": Builtin("Fraction", _fraction)}),
+            "vc_pyx_runtime": BM.make_pyx_runtime(),
         }
         return stubs
 
